@@ -129,7 +129,8 @@ class ASTSchemaPrinter:
     def print_description(
         self, definition: Any, depth: int = 0, first_in_block: bool = True
     ) -> str:
-        if not self.include_descriptions or not definition.description:
+        # An empty description is a description.
+        if not self.include_descriptions or definition.description is None:
             return ""
 
         indent = self.indent * depth
@@ -371,7 +372,9 @@ class ASTSchemaPrinter:
             return ""
 
         indent = self.indent * depth
-        if self.include_descriptions and any(a.description for a in args):
+        if self.include_descriptions and any(
+            a.description is not None for a in args
+        ):
             return "%s(\n%s\n%s)" % (
                 indent,
                 "\n".join(
